@@ -38,8 +38,7 @@ Proof. apply rt_ok_sound. vm_compute. reflexivity. Qed.
 Module C18Docs3.
 Import String.
 Local Open Scope string_scope.
-(* .conn moves the port pin y to the merged cable n1_0_y_0: the writer names the port "y", the net
-   "n1_0_y_0" *)
+(* .conn moves the port pin y to the wire of n1: the writer names the port "y", the net "n1" *)
 Definition doc_conn_port_net : doc := D [
   ".model top";
   ".inputs a";
@@ -60,7 +59,8 @@ Definition doc_top_primitive : doc := D [
   ".outputs y";
   ".subckt INV I=a O=y";
   ".end" ].
-(* .conn removes wire 0 of cable x: x[1], x[2] become x[0], x[1], the instances keep their names *)
+(* .conn on wire 0 of cable x (it used to remove the wire: x[1], x[2] became x[0], x[1], while the instances
+   kept their names) *)
 Definition doc_conn_bus : doc := D [
   ".model top";
   ".names a x[1]";
@@ -90,10 +90,13 @@ Lemma rt_excluded_default_names :
   exists n, elab doc_default_names = Ok n /\ roundtrippable n = false /\ ~ exists n', elab (emit n) = Ok n'.
 Proof. apply reread_fails_sound. vm_compute. reflexivity. Qed.
 
-(* the written file is rejected: two instances get the same name *)
-Lemma rt_excluded_conn_bus :
-  exists n, elab doc_conn_bus = Ok n /\ roundtrippable n = false /\ ~ exists n', elab (emit n) = Ok n'.
-Proof. apply reread_fails_sound. vm_compute. reflexivity. Qed.
+(* .conn on a bit of a bus: before the repair of merge_wires the written file was rejected (the wires after
+   the removed one had moved down, two instances got the same name); now every wire keeps its position,
+   the netlist is roundtrippable and does round-trip *)
+Lemma roundtrip_conn_bus :
+  exists n n', elab doc_conn_bus = Ok n /\ roundtrippable n = true /\ elab (emit n) = Ok n' /\ equiv n n' /\ equiv_ports n n' /\
+    equiv_pins n n'.
+Proof. apply rt_ok_sound. vm_compute. reflexivity. Qed.
 
 (* ---- a decidable refutation of the equivalence ---- *)
 Definition nets_differ_b (m m' : model) : bool :=
